@@ -3,7 +3,7 @@
 # (patch files in seeded/reverts/, produced with `git revert --no-commit` in a scratch worktree),
 # applied to /repo, the owning property's quick check must report a VIOLATION, and the patch is undone.
 cd /verif
-MAP="3da402d:C12 1971f21:C20 ccca9a3:C19 9162d84:C19 85d790c:C19 1f034ed:C12 e429085:C16 5ff8fa4:C16 6322b1b:C16 e647008:C16 ad4d6aa:C18 b8a3d56:C07 63b1031:C12 2b0afd6:C12 8be6768:C11 47c8a1c:C12 ad846d8:C12 9dd4b68:C12 1fd125b:C12 9131d89:C12 042c93d:C12 38c94ed:C12 bd32d58:C07 a9cb2b3:C06 87be3ae:C05 492c4ce:C05 91b5e5c:C01"
+MAP="dacc1fa:C16 d30993e:C16 3da402d:C12 1971f21:C20 ccca9a3:C19 9162d84:C19 85d790c:C19 1f034ed:C12 e429085:C16 5ff8fa4:C16 6322b1b:C16 e647008:C16 ad4d6aa:C18 b8a3d56:C07 63b1031:C12 2b0afd6:C12 8be6768:C11 47c8a1c:C12 ad846d8:C12 9dd4b68:C12 1fd125b:C12 9131d89:C12 042c93d:C12 38c94ed:C12 bd32d58:C07 a9cb2b3:C06 87be3ae:C05 492c4ce:C05 91b5e5c:C01"
 for m in $MAP; do
   h=${m%%:*}; p=${m##*:}
   echo "== revert $h ($p): $(git -C /repo log -1 --format=%s $h | cut -c1-90)"
